@@ -2,7 +2,7 @@ SPECIFICATION TSpec
 CONSTANTS
   Vers = {"sasl", "sasl2"}
   Mechs = {"PLAIN", "DIGEST-MD5", "ANONYMOUS", "X-UNKNOWN"}
-  Creds = {"right", "wrongPw", "ownEmpty", "otherUser", "victimEmpty", "victimOwnSecret", "victimReplay", "ownOtherNonce", "ownNoNonce", "unknownPw", "unknownEmpty", "embedEmpty", "embedBareEmpty", "embedSlashEmpty", "embedKnown", "malformed", "empty"}
+  Creds = {"right", "wrongPw", "ownEmpty", "otherUser", "victimEmpty", "victimOwnSecret", "victimReplay", "ownOtherNonce", "ownNoNonce", "unknownPw", "unknownEmpty", "embedEmpty", "embedBareEmpty", "embedSlashEmpty", "embedKnown", "caseKnown", "malformed", "empty"}
   BindRes = {"ra", "rv"}
   Kinds = {"message", "presence", "iq"}
   Froms = {"absent", "own", "ownBare", "victim", "other", "ownOtherRes", "ownSibling", "ownCase", "ownSlash", "ownPrefix", "ownDomain", "ownLookalike"}
